@@ -23,12 +23,13 @@ struct SidModel { bool present = false; Saved cur; std::vector<Saved> all; bool 
 std::string make_payload(int kind,int len,int opidx,const std::string &prev){
 	if(len < 0) len = 0; if(len > 200000) len = 200000;
 	std::string v((size_t)len,'\0');
-	switch(((kind%6)+6)%6){
+	switch(((kind%7)+7)%7){
 	case 0: for(size_t j=0;j<v.size();j++) v[j] = (char)((opidx*131 + j*7 + 1) & 0xff); break;
 	case 1: break;                                          // all zero bytes
 	case 2: v = prev; break;                                // identical to the previous value
 	case 3: v = prev; if(!v.empty()) v[v.size()-1] ^= 0x55; break;   // differs in the last byte only
 	case 4: v = prev; v.resize((size_t)len,(char)opidx); break;      // previous value truncated / extended
+	case 6: v = prev; for(size_t j=65536;j<v.size();j++) v[j] ^= 0xA5; break;   /* same length, same first 64 KiB, every later byte different (a checksum that looks at a prefix only accepts a torn mixture) */
 	default: for(size_t j=0;j<v.size();j++) v[j] = (char)('a' + (opidx + j/512) % 26); break;   // constant per sector
 	}
 	return v;
@@ -57,6 +58,8 @@ struct E7 : Engine {
 		J c = J::obj(); c["sid"] = (int)r.below(2); c["len"] = pick_len(); c["dl"] = 1 + (int)r.below(20); c["fill"] = (int)r.below(6);
 		c["post"] = (int)r.below(4);   /* 0 load, 1 gc+load, 2 load twice, 3 the application repeats the interrupted save (same value, same deadline) to completion and loads */ c["tick_after"] = r.below(3)==0 ? (int)r.below(25) : 0; c["random_states"] = thorough ? 256 : 64;
 		p["crash"] = c;
+		/* one plan in 24 ("bigtail", round 9): a large session value (more than 64 KiB) is saved, then a value of the same length that differs behind the first 64 KiB only is saved and cut */
+		if(r.below(24) == 0){ int s = (int)r.below(2); int L = 65537 + (int)r.below(thorough ? 90000 : 30000); J o = J::obj(); o["op"] = "save"; o["sid"] = s; o["len"] = L; o["dl"] = 5 + (int)r.below(20); o["fill"] = 0; J ops2 = J::arr(); ops2.push(o); p["ops"] = ops2; J c2 = J::obj(); c2["sid"] = s; c2["len"] = L; c2["dl"] = 1 + (int)r.below(20); c2["fill"] = 6; c2["post"] = (int)r.below(4); c2["tick_after"] = 0; c2["random_states"] = 32; p["crash"] = c2; p["bigtail"] = 1; }
 		// a fifth of the plans: instead of the crashing save, a concurrent phase - savers, loaders, removers and gc as scheduled threads on the same two sessions
 		if(r.below(5) == 0){ p["crash"] = J(); J th = J::arr(); int nt = 2 + r.below(2);
 			for(int t=0;t<nt;t++){ J l = J::arr(); int k = 1 + r.below(3);
@@ -235,6 +238,7 @@ struct E7 : Engine {
 		if(res.ok && cr.is_obj()){
 			std::string sid = sid_name((int)(cr.geti("sid") & 1)); std::string other = sid_name((int)((cr.geti("sid") & 1) ^ 1)); if(!c.model.count(other)) other.clear();
 			Saved nw; nw.val = make_payload((int)cr.geti("fill"),(int)cr.geti("len"),999,prev); nw.deadline = c.now() + std::max<int64_t>(1,cr.geti("dl"));
+			if(nw.val.size() > 65536) c.cnt["crash_saves_over_64k"]++;
 			simk::FsImage pre = simk::fs_snapshot();
 			size_t j0 = simk::fs_journal().size();
 			{ session_file_storage_factory f(DIR_,5,1,file_lock); try { f.get()->save(sid,nw.deadline,nw.val); } catch(cppcms::cppcms_error const &e){ c.fail("save-failed",std::string("crash save threw ") + e.what()); } }
